@@ -580,6 +580,34 @@ func splitReceiveSourceOK() bool {
 	return sb.String() == resources.VerifTwoPCFilterHalfSource
 }
 
+// costClass: 0 = seconds to a few minutes, 1 = long but can be exhausted, 2 = runs into its time cap
+// (from measured runs; only used to order the thorough tier so that what can be exhausted is)
+func costClass(c *Cfg) int {
+	n, writers, blind := len(c.Scripts), 0, false
+	for _, sc := range c.Scripts {
+		if len(sc) > 0 {
+			writers++
+		}
+		for _, x := range sc {
+			if x == "blind" {
+				blind = true
+			}
+		}
+	}
+	if c.Transport == "sync" {
+		return 0
+	}
+	switch {
+	case n >= 5 && !(len(c.Faults) == 1 && c.MaxAttempts == 1 && writers == 2):
+		return 2
+	case n == 4 && c.Budget >= 1, n == 3 && writers == 3 && blind && c.Budget >= 1:
+		return 2
+	case n >= 4, n == 3 && writers == 3, n == 3 && writers == 2 && c.MaxAttempts >= 2 && (c.Budget >= 1 || !c.Atomic), c.Budget >= 2 && c.MaxAttempts >= 2:
+		return 1
+	}
+	return 0
+}
+
 func weight(c *Cfg) int {
 	secs := 0
 	for _, s := range c.Scripts {
@@ -698,6 +726,9 @@ func TestCheck(t *testing.T) {
 		// can be exhausted is, and the ones that run into their time cap anyway take what is left.
 		sort.SliceStable(order, func(a, b int) bool {
 			if env.Thorough() {
+				if ca, cb := costClass(&cfgs[order[a]]), costClass(&cfgs[order[b]]); ca != cb {
+					return ca < cb
+				}
 				return weight(&cfgs[order[a]]) < weight(&cfgs[order[b]])
 			}
 			if na, nb := len(cfgs[order[a]].Scripts), len(cfgs[order[b]].Scripts); na != nb {
